@@ -125,10 +125,11 @@ device_cb(void *arg)
 	device_path *p = arg;
 	device_data *d = p->d;
 	int          rv;
+	int          aio_rv;
 	int          next;
 
 	nni_mtx_lock(&device_mtx);
-	rv = nni_aio_result(&p->aio);
+	rv = aio_rv = nni_aio_result(&p->aio);
 	if (rv == 0) {
 		rv = d->rv;
 		if ((rv != 0) && (p->state == NNI_DEVICE_STATE_RECV)) {
@@ -138,7 +139,12 @@ device_cb(void *arg)
 	}
 	if (rv != 0) {
 		if (p->state == NNI_DEVICE_STATE_SEND) {
-			nni_msg_free(nni_aio_get_msg(&p->aio));
+			// Only a send that failed leaves the message with
+			// us; one that succeeded has consumed it (and may
+			// leave a stale pointer on the aio).
+			if (aio_rv != 0) {
+				nni_msg_free(nni_aio_get_msg(&p->aio));
+			}
 			nni_aio_set_msg(&p->aio, NULL);
 		}
 		p->state = NNI_DEVICE_STATE_FINI;
